@@ -147,15 +147,21 @@ class Tokenizer:
         """loop until we get INDENT-DEDENT or NL"""
 
         is_indented: bool = False
+        block_col = 0  # width of the block's indentation
+        leading = True  # only blank / comment lines seen since the header: the block may still begin
+        header_ended = False  # nothing but the line end followed the colon: a block has to come
         indent = 0
-        lines = {}
+        lines: dict[int, tuple[str, int]] = {}  # line number -> (text, column of its first token)
         start = end = self._tokens[-1].end
         for idx, tok in enumerate(self._tokengen):
             if (idx == 0) and tok.type == Token.NEWLINE:
+                header_ended = True
                 continue
             elif tok.type == Token.INDENT:
-                if (not is_indented) and (idx == 1):
+                if (not is_indented) and leading and idx > 0:
                     is_indented = True
+                    leading = False
+                    block_col = len(tok.string)
                     continue
                 indent += 1
             elif tok.type == Token.DEDENT:
@@ -171,16 +177,31 @@ class Tokenizer:
                 elif not tok.string:
                     # empty new line added by the tokenizer
                     continue
+            if tok.type not in (Token.COMMENT, Token.NL, Token.WS) or idx == 0:
+                if leading and header_ended and not is_indented and tok.type != Token.ENDMARKER:
+                    raise self._syntax_error("expected an indented block after the with-macro header", tok)
+                leading = False  # code before any INDENT: the one-line form
 
             # update captured lines
             if tok.start[0] not in lines:
-                lines[tok.start[0]] = tok.line if is_indented else tok.line[tok.start[1] :]
+                lines[tok.start[0]] = (tok.line, tok.start[1])
 
-        string = "".join(lines.values())
         if is_indented:
             import textwrap
 
-            string = textwrap.dedent(string)
+            texts = [text for text, _ in lines.values()]
+            # a comment written left of the block after its last statement is not part of it (nor is what follows it)
+            tail = len(texts)
+            while tail and (not texts[tail - 1].strip() or texts[tail - 1].lstrip().startswith("#")):
+                tail -= 1
+            for i in range(tail, len(texts)):
+                text = texts[i]
+                if text.strip() and len(text) - len(text.lstrip()) < block_col:
+                    del texts[i:]
+                    break
+            string = textwrap.dedent("".join(texts))
+        else:
+            string = "".join(text[col:] for text, col in lines.values())
         return TokenInfo(Token.MACRO_PARAM, string, start, end, string)
 
     def diagnose(self) -> TokenInfo:
